@@ -1072,6 +1072,11 @@ func (p *Parser) parseTernary(conditionNode ast.Node) ast.Node {
 func (p *Parser) parseGroupedExpr() ast.Node {
 	p.nextToken()
 	exp := p.parseExpression(LOWEST)
+	if exp == nil {
+		// e.g. "(" directly followed by a newline: there is no expression
+		p.setTokenError(p.curToken, "invalid syntax in grouped expression")
+		return nil
+	}
 	if !p.expectPeek("grouped expression", token.RPAREN) {
 		return nil
 	}
@@ -1475,7 +1480,15 @@ func (p *Parser) parseExprList(end token.Type) []ast.Expression {
 		if err := p.nextToken(); err != nil {
 			return nil
 		}
-		list = append(list, p.parseExpression(LOWEST))
+		expr := p.parseExpression(LOWEST)
+		if expr == nil {
+			if p.curToken.Type == token.EOF {
+				break // reported by expectPeek below
+			}
+			p.setTokenError(p.curToken, "invalid syntax in list expression")
+			return nil
+		}
+		list = append(list, expr)
 	}
 	for p.peekTokenIs(token.NEWLINE) {
 		if err := p.nextToken(); err != nil {
@@ -1525,7 +1538,15 @@ func (p *Parser) parseNodeList(end token.Type) []ast.Node {
 		if err := p.nextToken(); err != nil {
 			return nil
 		}
-		list = append(list, p.parseNode(LOWEST))
+		expr := p.parseNode(LOWEST)
+		if expr == nil {
+			if p.curToken.Type == token.EOF {
+				break // reported by expectPeek below
+			}
+			p.setTokenError(p.curToken, "invalid syntax in list expression")
+			return nil
+		}
+		list = append(list, expr)
 	}
 	for p.peekTokenIs(token.NEWLINE) {
 		if err := p.nextToken(); err != nil {
